@@ -634,11 +634,13 @@ struct Tracked {
   // only by the last observer" (C04) thereby become ordering checks under the C++ memory model.
   explicit Tracked(int x) noexcept : magic{kMagic ^ static_cast<u64>(static_cast<u32>(x))}, v{x}, moved{false} {
     hb::Forget(this);
+    hb::Write(this, "payload (constructed)", "C04");
     g_tracked.live.fetch_add(1, kRlx);
     g_tracked.ctors.fetch_add(1, kRlx);
   }
   Tracked(const Tracked& o) noexcept : magic{o.magic}, v{o.v}, moved{o.moved} {
     hb::Forget(this);
+    hb::Write(this, "payload (constructed)", "C04");
     if (!o.Good()) {
       g_tracked.bad.fetch_add(1, kRlx);
     }
@@ -647,6 +649,7 @@ struct Tracked {
   }
   Tracked(Tracked&& o) noexcept : magic{o.magic}, v{o.v}, moved{o.moved} {
     hb::Forget(this);
+    hb::Write(this, "payload (constructed)", "C04");
     if (!o.Good()) {
       g_tracked.bad.fetch_add(1, kRlx);
     }
@@ -709,9 +712,11 @@ struct MoveOnly {
   MoveOnly& operator=(const MoveOnly&) = delete;
 };
 
-// error type used next to StopError
+// error type used next to StopError; it carries a tracked member so that error payloads are subject to the same lifetime
+// (leak, double destruction) and happens-before checks as values
 struct MyError {
   int code = 0;
+  Tracked life{0};
   MyError() noexcept = default;
   explicit MyError(int c) noexcept : code{c} {
   }
@@ -798,6 +803,29 @@ inline std::string NewStderr(std::size_t max) {
 #endif
 
 // Executes the cell body once (pass 0) or again (pass 1) with identical random choices.
+// A race (ThreadSanitizer report or happens-before monitor) is always a C04 violation.  It also refutes the property of
+// the cell it occurred in where that property itself promises visibility / happens-before or an intact outcome:
+// consecutive Strand jobs (C07) and Mutex critical sections (C14) write plain shared payload; "Ready() becomes true only
+// once that Result can be read ... never delivered torn" (C01) and "Ready()==true implies the value can be read, no
+// observer reads a partially written value" (C06) are statements under the C++ memory model, where a racing read of the
+// Result is exactly a torn delivery; WhenAll/WhenAny promise to carry an input's value / error (C09, C10): a racing
+// write of the recorded outcome is a torn outcome.
+inline std::string RaceExtraProps(const Cell& cell) {
+  static const struct {
+    const char* family;
+    const char* prefix;
+    const char* prop;
+  } kHbRules[] = {{"exec", "strand/", ",C07"}, {"cmutex", "mutex/", ",C14"}, {"core", "", ",C01"}, {"shared", "", ",C06"},
+                  {"when", "all/", ",C09"},    {"when", "join/", ",C09"},    {"when", "any/", ",C10"}};
+  std::string props;
+  for (auto& r : kHbRules) {
+    if (std::strcmp(g_cfg.family, r.family) == 0 && std::strncmp(cell.name, r.prefix, std::strlen(r.prefix)) == 0) {
+      props += r.prop;
+    }
+  }
+  return props;
+}
+
 // Properties, besides C03, whose own statement promises release and that the lifecycle oracles (tracked objects alive at
 // quiescence, LeakSanitizer, operator new/delete balance) therefore also decide in the cells that exercise them:
 // C09/C10 "every input is consumed and released exactly once", C16 "consumed ones are released exactly once",
@@ -891,7 +919,8 @@ inline CaseResult Execute(const Cell& cell, int cell_id, u64 idx, int pass, bool
     }
     if (hb::g.race.found) {
       std::string oracle = std::string("hb-race@") + hb::g.race.label;
-      ctx.Fail(oracle.c_str(), hb::g.race.props, "%s", hb::g.race.text);
+      std::string rp = std::string(hb::g.race.props) + RaceExtraProps(cell);
+      ctx.Fail(oracle.c_str(), rp.c_str(), "%s", hb::g.race.text);
     }
   }
 #else
@@ -953,25 +982,7 @@ inline CaseResult Execute(const Cell& cell, int cell_id, u64 idx, int pass, bool
       }
     }
     std::string oracle = "tsan-race@" + site;
-    // A race report is always a C04 violation.  It also refutes the property of the cell it occurred in where that
-    // property itself promises visibility / happens-before: consecutive Strand jobs (C07) and Mutex critical sections
-    // (C14) write plain shared payload; "Ready() becomes true only once that Result can be read ... never delivered
-    // torn" (C01) and "Ready()==true implies the value can be read, no observer reads a partially written value" (C06)
-    // are statements under the C++ memory model, where a racing read of the Result is exactly a torn delivery.
-    static const struct {
-      const char* family;
-      const char* prefix;
-      const char* prop;
-    } kHbRules[] = {{"exec", "strand/", ",C07"}, {"cmutex", "mutex/", ",C14"}, {"core", "", ",C01"}, {"shared", "", ",C06"},
-                    // "carrying that input's error / every input's value": a racing write of the recorded outcome is a
-                    // torn outcome under the memory model
-                    {"when", "all/", ",C09"}, {"when", "join/", ",C09"}, {"when", "any/", ",C10"}};
-    std::string props = "C04";
-    for (auto& r : kHbRules) {
-      if (std::strcmp(g_cfg.family, r.family) == 0 && std::strncmp(cell.name, r.prefix, std::strlen(r.prefix)) == 0) {
-        props += r.prop;
-      }
-    }
+    std::string props = "C04" + RaceExtraProps(cell);
     ctx.Fail(oracle.c_str(), props.c_str(), "%llu ThreadSanitizer report(s) during this case:\n%s",
              (unsigned long long)tsan, brief.c_str());
   }
